@@ -36,6 +36,9 @@ pub enum Trigger {
     JoinDuringForcedElection(usize),
     /// a settled cluster of n-1 nodes whose primary dies while the last node starts and joins
     JoinDuringFailover,
+    /// the primary dies, the survivors settle (default schedule), then the primary they elected dies too
+    /// (a primary that got there by winning an election, announced over links opened while it was a secondary)
+    SecondPrimaryDies,
 }
 
 #[derive(Clone, Debug)]
@@ -125,6 +128,18 @@ pub fn build(c: &Config) -> Result<NetWorld, String> {
                 w.eof_last = vec![*n];
             }
             w.kill_node_lazily(p)?;
+            Ok(w)
+        }
+        Trigger::SecondPrimaryDies => {
+            let mut w = settled_with_pids(c.nodes, &c.pids)?;
+            let p = (0..c.nodes).find(|i| w.role(*i) == ClusterRole::Primary).ok_or("no primary after bootstrap")?;
+            w.kill_node_noticed(p, false)?;
+            w.run_to_quiescence(20000)?;
+            let p2 = (0..c.nodes).find(|i| w.nodes[*i].alive && w.role(*i) == ClusterRole::Primary).ok_or("no primary after the first failover")?;
+            w.clients.retain(|c| !c.done);
+            w.traffic.clear();
+            w.problems.clear();
+            w.kill_node_lazily(p2)?;
             Ok(w)
         }
         Trigger::ForceElection(i) => {
@@ -228,6 +243,7 @@ pub fn configs(quick: bool) -> Vec<Config> {
     v.push(Config { nodes: 2, pids: vec![100, 200], trigger: Trigger::ForceElectionTwice(0, 1) });
     v.push(Config { nodes: 3, pids: vec![100, 200, 300], trigger: Trigger::PrimaryDies });
     v.push(Config { nodes: 3, pids: vec![100, 200, 300], trigger: Trigger::PrimaryDiesNoticedInReverse });
+    v.push(Config { nodes: 3, pids: vec![100, 200, 300], trigger: Trigger::SecondPrimaryDies });
     v.push(Config { nodes: 3, pids: vec![100, 200, 300], trigger: Trigger::PrimaryDiesNoticedLater });
     v.push(Config { nodes: 3, pids: vec![100, 200, 300], trigger: Trigger::PrimaryDiesNoticedLastBy(1) });
     v.push(Config { nodes: 3, pids: vec![100, 200, 300], trigger: Trigger::PrimaryDiesNoticedLastBy(2) });
@@ -237,6 +253,7 @@ pub fn configs(quick: bool) -> Vec<Config> {
     if !quick {
         v.push(Config { nodes: 3, pids: vec![100, 200, 300], trigger: Trigger::JoinDuringForcedElection(0) });
         v.push(Config { nodes: 4, pids: vec![100, 200, 300, 400], trigger: Trigger::JoinDuringFailover });
+        v.push(Config { nodes: 4, pids: vec![100, 200, 300, 400], trigger: Trigger::SecondPrimaryDies });
         for i in [0, 2] {
             v.push(Config { nodes: 3, pids: vec![100, 200, 300], trigger: Trigger::ForceElection(i) });
         }
